@@ -200,14 +200,29 @@ inductive Announce | tm | rm (resource : String)
 
 /-- the documented behaviour: transaction manager and every registered resource -/
 def announceSpec (resources : List String) : List Announce := .tm :: resources.map .rm
-/-- the code (listener.go OnOpen): the transaction manager only — known finding C19-rm-not-reannounced -/
-def announceAsCoded (_resources : List String) : List Announce := [.tm]
+/-- the code (listener.go OnOpen, then the hook package rm registers with `RegisterOnSessionOpen`): the
+transaction manager first, then one RegisterRMRequest per cached resource of every resource manager -/
+def announce (resources : List String) : List Announce := .tm :: resources.map .rm
+/-- the code before the repair (finding C19-rm-not-reannounced): the transaction manager only -/
+def announceBeforeFix (_resources : List String) : List Announce := [.tm]
 
 theorem C19_reannounce_spec (resources : List String) :
     .tm ∈ announceSpec resources ∧ ∀ r ∈ resources, .rm r ∈ announceSpec resources := by
   simp [announceSpec]
 
-theorem C19_reannounce_asCoded_FINDING : Announce.rm "tcc-action" ∉ announceAsCoded ["tcc-action"] := by decide
+/-- every resource registered before the connection was lost is announced on the new session, after the
+transaction manager, and nothing else is -/
+theorem C19_reannounce (resources : List String) :
+    announce resources = announceSpec resources ∧
+    (announce resources).head? = some .tm ∧
+    (∀ r ∈ resources, .rm r ∈ announce resources) ∧
+    (∀ r, .rm r ∈ announce resources → r ∈ resources) ∧
+    (announce resources).length = resources.length + 1 := by
+  refine ⟨rfl, rfl, ?_, ?_, ?_⟩ <;> simp [announce]
+
+theorem C19_before_fix_resource_forgotten (r : String) (rest : List String) :
+    Announce.rm r ∉ announceBeforeFix (r :: rest) := by
+  simp [announceBeforeFix]
 
 /-! Non-vacuity -/
 example : allowed .xid (runOps {} [.open_ 1 "10.0.0.1:8091", .open_ 2 "10.0.0.2:8091", .close 1]) "10.0.0.2:8091:77"
